@@ -205,7 +205,7 @@ class Rule(
         return self
 
     def assert_applies(self, evaluable: EvaluableArchitecture) -> None:
-        self._configuration = self._convert_aliases(self._configuration)
+        self._configuration = self._convert_aliases(self._configuration, evaluable)
         self._assert_required_configuration_present()
 
         matcher = self._prepare_rule_matcher()
@@ -307,7 +307,11 @@ class Rule(
         return f"a {clz.__name__}" if empty else ""
 
     @classmethod
-    def _convert_aliases(cls, configuration: RuleConfiguration) -> RuleConfiguration:
+    def _convert_aliases(
+        cls,
+        configuration: RuleConfiguration,
+        evaluable: EvaluableArchitecture | None = None,
+    ) -> RuleConfiguration:
         if not configuration.rule_object_anything:
             return configuration
 
@@ -324,6 +328,7 @@ class Rule(
         modules_to_check_without_parent_and_submodule_combinations = (
             cls._get_modules_to_check_without_parent_and_submodule_combinations(
                 configuration,
+                evaluable,
             )
         )
 
@@ -337,7 +342,9 @@ class Rule(
 
     @classmethod
     def _get_modules_to_check_without_parent_and_submodule_combinations(
-        cls, configuration: RuleConfiguration
+        cls,
+        configuration: RuleConfiguration,
+        evaluable: EvaluableArchitecture | None = None,
     ) -> Sequence[ModuleFilter] | None:
         # if modules_to_check contain a module and its submodule, this can throw off the breadth first search conducted
         # on the dependency graph - and also, this setup does not really make sense
@@ -355,7 +362,13 @@ class Rule(
                 if module.identifier.startswith(f"{module_name}."):
                     parent_module_found = True
 
-            if not parent_module_found:
+            # a module that does not exist in the evaluable is kept, so that it is reported as unknown
+            # instead of being silently dropped from the rule
+            if not parent_module_found or (
+                evaluable is not None
+                and not module.identifier_is_regex
+                and module.identifier not in evaluable.modules
+            ):
                 result.append(module)
 
         return result
